@@ -70,6 +70,22 @@ impl Subpatterns {
                 continue;
             };
 
+            // The subpattern has to be a regex of its own: `a)|(?:b` only parses once it is
+            // wrapped in the group it is substituted with, and would then leak its alternation
+            // (or its flags) into the patterns that reference it.
+            let prefix = if pattern.unicode() { "(?u:" } else { "(?-u:" };
+            let unwrapped = &subpattern.pattern[prefix.len()..subpattern.pattern.len() - 1];
+            if let Err(msg) = Pattern::compile(
+                false,
+                unwrapped,
+                pattern.token().to_string(),
+                pattern.unicode(),
+                false,
+            ) {
+                errors.err(msg, pattern.span());
+                continue;
+            }
+
             // Test compile the subpattern for better error messages
             // Compile w/ unicode mode, since the top level flag will set it on or off anyway
             match Pattern::compile(
